@@ -223,6 +223,29 @@ func weaken(g *escape.EscapeGraph, rnd *rand.Rand, p float64) *escape.EscapeGrap
 	return w
 }
 
+// statusMin rebuilds g with all its nodes and edges but without any explicit status raise: every status falls to
+// what the intrinsic statuses and the propagation along the kept edges give.  With cut = true the edges that leave
+// an intrinsically non-local node (Param, Load, Global, Unknown) are dropped as well, so that nothing is escaped or
+// leaked except those nodes themselves.  Both are sub-graphs of g built through the real API only.
+func statusMin(g *escape.EscapeGraph, cut bool) *escape.EscapeGraph {
+	s := escape.VerifSnapshot(g)
+	byID := escape.VerifNodesOf(g)
+	w := escape.VerifEmptyLike(g)
+	kind := map[int]int{}
+	for _, n := range s.Nodes {
+		escape.VerifAddNode(w, byID[n.ID])
+		kind[n.ID] = n.Kind
+	}
+	for _, e := range s.Edges {
+		k := kind[e.Src]
+		if cut && (k == 1 || k == 2 || k == 3 || k == 8) {
+			continue
+		}
+		escape.VerifAddEdge(w, byID[e.Src], byID[e.Dst], e.Flags)
+	}
+	return w
+}
+
 func apply(prog *escape.ProgramAnalysisState, f *ssa.Function, instr ssa.Instruction, g *escape.EscapeGraph) (ok bool) {
 	defer func() {
 		if r := recover(); r != nil {
@@ -242,7 +265,7 @@ func main() {
 	maxMerge := flag.Int("maxmerge", 400, "merge events kept")
 	maxInstr := flag.Int("maxinstr", 150, "instructions kept")
 	maxPairs := flag.Int("maxpairs", 5, "recorded applications kept per instruction")
-	nWeak := flag.Int("weak", 2, "weakened inputs per kept application")
+	nWeak := flag.Int("weak", 2, "seeded random weakened inputs per kept application (two systematic ones are always made)")
 	maxFinal := flag.Int("maxfinal", 80, "largest final/block-end graph (nodes) compared across runs")
 	synthPerFn := flag.Int("synthperfn", 6, "real merges of recorded graphs attempted per function")
 	maxSynth := flag.Int("maxsynth", 400, "real merges of recorded graphs kept")
@@ -671,9 +694,17 @@ func main() {
 			ents := []tentry{}
 			for _, c := range cs {
 				e := tentry{Pre: c.pre, Post: c.post, Weak: []wpair{}}
-				for w := 0; w < *nWeak; w++ {
-					p := []float64{0.85, 0.6, 0.35}[w%3]
-					wg := weaken(c.tp.Pre, wr, p)
+				// two systematic weakenings (status only) and nWeak seeded random sub-graphs
+				for w := 0; w < *nWeak+2; w++ {
+					var wg *escape.EscapeGraph
+					switch w {
+					case 0:
+						wg = statusMin(c.tp.Pre, false)
+					case 1:
+						wg = statusMin(c.tp.Pre, true)
+					default:
+						wg = weaken(c.tp.Pre, wr, []float64{0.85, 0.6, 0.35}[(w-2)%3])
+					}
 					wpre := snap(wg)
 					if !apply(ea0, f, k.instr, wg) {
 						if pass == 1 {
